@@ -92,6 +92,9 @@ type node interface {
 	// setModTime sets the modification time of the node.
 	setModTime(mtime time.Time, u avfs.UserReader) bool
 
+	// canSetOwner returns true if the user u can change the owner and the group of the node to uid and gid.
+	canSetOwner(uid, gid int, u avfs.UserReader, hasIdm bool) bool
+
 	// setOwner sets the owner of the node.
 	setOwner(uid, gid int)
 
